@@ -1,6 +1,7 @@
 import Ts.Lemmas.Demux
 import Ts.Lemmas.DemuxB
 import Ts.Props.C06
+import Ts.Model.App
 /-!
 # C07 — cutting the stream at packet boundaries into successive `push` calls is irrelevant
 
@@ -175,5 +176,30 @@ example : pushAll exSem ([], []) [[], pkt5, [], pkt1 ++ pkt5, pkt1] 0
   have := chunking_irrelevant exSem ([], []) [[], pkt5, [], pkt1 ++ pkt5, pkt1] 0 ex_aligned
   rw [this]
   simp only [List.flatten_cons, List.flatten_nil, List.nil_append, List.append_nil, List.append_assoc]
+
+/-! ### the concrete application (library PAT / PMT / PES filters + harness application) -/
+
+theorem pushAll_single (sem : Sem H C) (tc : Tab H × C) (b : Bytes) (base : Nat) :
+    pushAll sem tc [b] base = push sem tc b base := by
+  simp only [pushAll]
+  cases push sem tc b base with
+  | ok v => rfl
+  | panic s => rfl
+
+/-- **C07 for the real filters**: for every configuration and every way of cutting a stream at
+packet boundaries into pushes, the whole run — final handler table AND application context, hence
+the complete ordered callback trace (`Ctx.trace`: handler requests, packets handed to recorders,
+elementary-stream notifications with their ranges) — equals that of pushing the stream in one call -/
+theorem app_chunking_irrelevant (cfg : Ts.App.Cfg) (chunks : List Bytes)
+    (h : ∀ c ∈ chunks, c.length % 188 = 0) :
+    Ts.App.runApp cfg chunks = Ts.App.runApp cfg [chunks.flatten] := by
+  unfold Ts.App.runApp
+  rw [chunking_irrelevant Ts.App.sem _ chunks 0 h, pushAll_single]
+
+theorem app_trace_chunking_irrelevant (cfg : Ts.App.Cfg) (chunks : List Bytes)
+    (h : ∀ c ∈ chunks, c.length % 188 = 0) (t : Tab Ts.App.Handler) (c : Ts.App.Ctx)
+    (hr : Ts.App.runApp cfg [chunks.flatten] = .ok (t, c)) :
+    ∃ t' c', Ts.App.runApp cfg chunks = .ok (t', c') ∧ c'.trace = c.trace :=
+  ⟨t, c, by rw [app_chunking_irrelevant cfg chunks h, hr], rfl⟩
 
 end Ts.Props.C07
